@@ -100,6 +100,8 @@ def analyse(run: Run, rec: sym.Record, module: str, scope: str, event_params: Se
     n = 0
     for e in rec.effects:
         pth = e.path if e.path is not None else e.base
+        if e.kind.startswith("memo-"):
+            continue            # a store into a table proved to be a pure memo (vstatic/memo.py): not state
         if e.kind == "global":
             run.ob("R3", module, scope, f"global {e.key}", False,
                    f"{scope} declares `global {e.key}`: module-level state shared by all threads", line=e.lineno)
@@ -250,6 +252,54 @@ def learned_names(repo: Repo, run: Run) -> None:
     run.floor("R0", "name-learning obligations taken over from C14", n, 2)
 
 
+def single_entry_caches(tp, interp) -> Dict[str, str]:
+    """Slots of the parser used as a one-entry cache by one method: `if <inputs differ from the remembered ones>: self.key =
+    <inputs>; self.value = F(<inputs>)`, then `self.value` is used.  slot -> '' when every input F reads is compared with its
+    remembered copy in the refresh test, otherwise what is missing."""
+    from .. import memo, render, guards as _g
+    out: Dict[str, str] = {}
+    for name, fn in tp.methods.items():
+        if name == "__init__":
+            continue
+        rec = interp.run(tp.module, fn, self_cls=tp)
+        stores = [e for e in rec.effects if e.kind == "attr-store" and (e.path or e.base) == SELF and e.func.endswith("." + name) and e.pc]
+        groups: Dict[tuple, list] = {}
+        for e in stores:
+            groups.setdefault(e.pc, []).append(e)
+        for pc, es in groups.items():
+            def is_param_input(t):
+                return memo._is_input(t) and sym.root_of(t).op == "param" and sym.root_of(t) != SELF
+            slot_names = {e.key for e in es}
+
+            def remembered(t):
+                r = sym.root_of(t)
+                x = t
+                while x.op in ("sub", "attr") and not (x.op == "attr" and x.a[0] == SELF):
+                    x = x.a[0]
+                return x.op == "attr" and x.a[0] == SELF and x.a[1] in slot_names
+            covered = set()
+            for atom in [x for c, _pol in pc for x in sym.walk(c)]:
+                if atom.op == "cmp" and atom.a[0] in ("==", "!=", "is", "is not"):
+                    for a, b in ((atom.a[1], atom.a[2]), (atom.a[2], atom.a[1])):
+                        if is_param_input(a) and remembered(b):
+                            covered.add(a)
+            if not covered:
+                continue            # not the idiom: the stores are not made under a comparison with remembered inputs
+            for e in es:
+                v = e.value
+                if v is None:
+                    continue
+                ins = {a for a in memo._inputs(v) if is_param_input(a)}
+                missing = sorted(sym.pretty(a) for a in ins - covered)
+                out[e.key] = "" if not missing else (f"refreshes it only when {sorted(sym.pretty(a) for a in covered)} changed, although it is "
+                                                     f"computed from {missing} as well")
+    # every slot of a group shares the verdict of its worst member
+    if any(v for v in out.values()):
+        worst = next(v for v in out.values() if v)
+        out = {k: (v or worst) for k, v in out.items()}
+    return out
+
+
 def check(repo: Repo, run: Run) -> None:
     learned_names(repo, run)
     from .c07 import Ctx
@@ -325,10 +375,20 @@ def check(repo: Repo, run: Run) -> None:
         if tr:
             per_decoder_tables[e.key] = sorted(tr)
     # ---- R2 scalar slots
+    caches = single_entry_caches(tp, interp)
     for slot, writers in sorted(slots_written.items()):
         readers = slots_read.get(slot, set())
         other = {r for r in readers}
         ok = not other
+        verdict = caches.get(slot)
+        if other and verdict is not None:
+            for (m, fn_name, ln) in writers:
+                run.ob("R2", m, fn_name, f"parser.{slot}: a remembered value is reused only when everything it was computed from is the same",
+                       verdict == "", "" if verdict == "" else
+                       f"{fn_name} keeps `{slot}` from one record to the next and {verdict}: with two threads (or the two window tables) "
+                       f"interleaved, a record is handled with what was looked up for another", line=ln,
+                       witness="a thread's single record of one pairing domain followed by its single record of the other")
+            continue
         for (m, fn_name, ln) in writers:
             run.ob("R2", m, fn_name, f"parser.{slot} = ...", ok,
                    "" if ok else
